@@ -24,12 +24,12 @@ func ExtractTypeInfo(t types.Type) *TypeInfo {
 	}
 
 	// Remove pointer if present
-	if ptr, ok := t.(*types.Pointer); ok {
+	if ptr, ok := types.Unalias(t).(*types.Pointer); ok {
 		t = ptr.Elem()
 	}
 
 	// Get named type
-	named, ok := t.(*types.Named)
+	named, ok := types.Unalias(t).(*types.Named)
 	if !ok {
 		return nil
 	}
@@ -54,12 +54,12 @@ func ExtractTypeName(t types.Type) string {
 	}
 
 	// Remove pointer if present
-	if ptr, ok := t.(*types.Pointer); ok {
+	if ptr, ok := types.Unalias(t).(*types.Pointer); ok {
 		t = ptr.Elem()
 	}
 
 	// Get named type
-	named, ok := t.(*types.Named)
+	named, ok := types.Unalias(t).(*types.Named)
 	if !ok {
 		return ""
 	}
